@@ -33,6 +33,11 @@ type Scenario struct {
 	// POR enables shared-location partial-order reduction (the scenario registers its memory
 	// with vsched.RegisterRegion in Setup); Explore then iterates the shared set to a fixpoint.
 	POR bool
+	// TrustFirst: a violation is recorded without the 5x replay confirmation. Needed when the
+	// verdict comes from the race detector, which reports a given pair of stacks only once per
+	// process; the report text itself is then the evidence and a replay in a fresh process
+	// (vcheck --replay) reproduces it.
+	TrustFirst bool
 }
 
 type Violation struct {
@@ -162,7 +167,7 @@ func (e *explorer) judge(x *vsched.Exec) {
 		sort.Slice(v.Shared, func(i, j int) bool { return v.Shared[i] < v.Shared[j] })
 		// must reproduce identically
 		ok := true
-		for k := 0; k < 5; k++ {
+		for k := 0; k < 5 && !e.sc.TrustFirst; k++ {
 			y := e.replay(v.Choices)
 			_, v2 := e.checkExec(y)
 			if v2 != viol {
